@@ -152,6 +152,7 @@ type Ctx struct {
 	assertSeen     map[*AssertClause]bool
 	assertHook     func(v Val, target types.Type, st *State) (Val, string, bool) // family engines: type assertions on modelled library values
 	bidMemo        map[string]string // ids handed out for byte-sequence values, by syntactic identity of the value
+	listAppends    []listAppend // ghost record of append(list, elem…) calls
 	mapEvents      []mapEvent
 	mapMakes       []string // ids of maps created by make in this unit
 	onCase         func(c *Ctx, cc *ast.CaseClause, st *State)
